@@ -211,12 +211,35 @@ fn build_reply(k: &KeySpec, recs: &[(u8, u32)]) -> dns::Message {
         m.header.rcode = [0u8, 0, 0, 0, 0, 2, 2, 3, 5, 1][(recs.len() * 7 + *t0 as usize) % 10];
     }
     for (i, (sec, ttl)) in recs.iter().enumerate() {
+        // Mostly address records; in the authority section also SOA records (as in a negative
+        // answer) whose MINIMUM field lies on either side of the TTLs around it, in the other
+        // sections the occasional NS / CNAME / opaque record.  Whatever the types, the entry
+        // lives as long as the smallest TTL of any record.  Derived from the case so that
+        // older replay files keep their shape where they had no authority records.
+        let pick = (i as u32).wrapping_mul(7).wrapping_add(*ttl);
+        let (rtype, rdata) = match (sec, pick % 4) {
+            (1, 0) | (1, 1) => (
+                dns::T_SOA,
+                dns::RData::Soa {
+                    mname: vec![b"ns".to_vec(), b"test".to_vec()],
+                    rname: vec![b"host".to_vec(), b"test".to_vec()],
+                    serial: pick,
+                    refresh: 7200,
+                    retry: 600,
+                    expire: 86400,
+                    minimum: CTTLS[(pick / 4) as usize % CTTLS.len()],
+                },
+            ),
+            (_, 2) if i % 5 == 4 => (dns::T_NS, dns::RData::Name(vec![b"ns".to_vec(), b"test".to_vec()])),
+            (_, 3) if i % 5 == 3 => (47, dns::RData::Raw(vec![0, 6, 0x40, 0, 0, 0, 0, 3])),
+            _ => (dns::T_A, dns::RData::Raw(vec![10, 0, (i >> 8) as u8, i as u8])),
+        };
         let r = dns::Rr {
             name: k.name.clone(),
-            rtype: dns::T_A,
+            rtype,
             class: 1,
             ttl: *ttl,
-            rdata: dns::RData::Raw(vec![10, 0, (i >> 8) as u8, i as u8]),
+            rdata,
         };
         match sec {
             0 => m.answer.push(r),
